@@ -100,6 +100,8 @@ def main():
             rec['ok'] = True
             rec['result'] = enc(res)
             rec['args_after'] = {k: enc(v) for k, v in args.items()}
+            if kw:
+                rec['args_after']['kwargs'] = enc(kw)
         except BaseException as e:      # noqa: the exception *is* the observation
             rec['exc'] = '%s: %s' % (type(e).__name__, e)
         out.append(rec)
